@@ -73,13 +73,13 @@ FLOORS = {
     "quick": {
         "enum_points_decided": 30, "enum_key_pairs_bitequal": 30, "pathwise_const_decided": 40, "pathwise_stream_decided": 20,
         "script_instances_decided": 60, "script_leaves": 600, "stat_tests": 80, "equiv_grad_vs_jvp": 60, "equiv_jit_vs_eager": 20,
-        "equiv_mvmap": 30, "programs_with_cond": 10, "programs_two_estimator_kinds": 25, "forward_law_identified": 1,
+        "equiv_mvmap": 30, "programs_with_cond": 10, "programs_two_estimator_kinds": 25, "forward_law_identified": 1, "forward_law_tests": 20,
         "batched_sites_decided": 15,
     },
     "thorough": {
         "enum_points_decided": 150, "enum_key_pairs_bitequal": 150, "pathwise_const_decided": 200, "pathwise_stream_decided": 100,
         "script_instances_decided": 300, "script_leaves": 3000, "stat_tests": 400, "equiv_grad_vs_jvp": 300, "equiv_jit_vs_eager": 100,
-        "equiv_mvmap": 150, "programs_with_cond": 50, "programs_two_estimator_kinds": 120, "forward_law_identified": 1,
+        "equiv_mvmap": 150, "programs_with_cond": 50, "programs_two_estimator_kinds": 120, "forward_law_identified": 1, "forward_law_tests": 20,
         "batched_sites_decided": 60,
     },
 }
@@ -121,6 +121,8 @@ def plan(tier, seed):
         variants = [0]
         if prim in R.BATCHABLE:
             variants += [2, 3]
+        if prim in R.NORMAL_LAW:
+            variants += [4, 5, 6]
         for var in variants:
             spec = R.unit_program(prim, var)
             fam = UNIT_FAMILY[prim]
@@ -138,6 +140,8 @@ def plan(tier, seed):
             rng = np.random.default_rng([int(seed), 11, {"enum": 1, "pathwise": 2, "script": 3, "stat": 4}[fam], j])
             spec = R.gen_program(rng, fam)
             add(fam, spec, f"{fam}:{j}", n=(npts + 1 if fam != "stat" else max(1, npts // 2)))
+    # the law of every primitive executed as a plain sample site (the sampler the pure continuation runs)
+    cases.append({"family": "forward", "spec": None, "points": [], "vseed": [int(seed), 11, 999], "unit": None, "tag": "forward-laws"})
     for i, c in enumerate(cases):
         c["index"] = i
     flt = os.environ.get("VERIF_C11_FILTER")  # development aid: regular expression on the case tag
@@ -599,7 +603,18 @@ def mon_stream(ctx, prog, th, v, rng, count=True):
             ctx.count("pathwise_stream_decided")
             ctx.count("pathwise_noise_draws_logged", ndraw)
         return
-    ctx.count("pathwise_stream_order_unresolved")
+    # no assignment of the logged draws to the sites reproduces the primal.  How many standard draws does the program
+    # need (one per element of every reparameterised site reached)?
+    need = {}
+    for k in ("normal", "uniform", "mvn"):
+        polc = R.Policy("stream", stream={"normal": [0.0] * 256, "uniform": [0.5] * 256, "mvn": [0.0] * 256})
+        ref.expect(th, polc)
+        need = {kk: 256 - len(polc.stream[kk]) for kk in ("normal", "uniform", "mvn")}
+        break
+    got = {k: sum(len(z) for z in calls[k]) for k in ("normal", "uniform", "mvn")}
+    what = "noise-draw-count" if need != got else "primal-not-explained-by-logged-noise"
+    raise Fail(what, {**_th_detail(th, v), "standard_draws_logged": got, "standard_draws_the_sites_need": need,
+                      "logged_noise": {k: calls[k] for k in calls}, "primal": float(p), "tangent": float(t)})
 
 
 def _ztest(ctx, name, x, ref, det):
@@ -776,6 +791,8 @@ def _unit_fails(ctx, label, monitor):
     """does the one-site program of this primitive fail under the same monitor?"""
     prim = label.split("[")[0]
     var = 2 if "[batched:mvmap]" in label else (3 if "[batched:direct]" in label else 0)
+    if var and prim in R.NORMAL_LAW:
+        var = {2: 6, 3: 5}[var]  # the layouts with a vector scale: a failure of either layout explains the site
     mon, var = _unit_monitor(prim, var, monitor)
     ck = (prim, var, mon)
     cache = _W["unit_cache"]
@@ -867,7 +884,104 @@ def run_case(case, ctx):
         ctx.count("seconds_" + case["family"], time.time() - t0)
 
 
+def _run_forward_laws(case, ctx):
+    """Every ADEV primitive run WITHOUT ADEV semantics (seed(prim) over a batch of keys) must draw from the law its
+    estimator assumes: that keyed sampler is what the pure continuation (flip_mvd's phantom branch, forward runs)
+    executes, and the host-driven monitors replace it, so only a statistical monitor on the real sampler sees it."""
+    from math import erf, sqrt
+
+    jax, jnp, seed, adev = _W["jax"], _W["jnp"], _W["seed"], _W["adev"]
+    rng = np.random.default_rng(case["vseed"])
+    n = 40000 if ctx.tier == "quick" else 200000
+    ks_eps = math.sqrt(math.log(2.0 / 1e-11) / (2.0 * n))
+
+    def draws(prim, *args):
+        ks = jax.random.split(jax.random.key(int(rng.integers(1 << 30))), n)
+        f = jax.jit(jax.vmap(seed(lambda *a: getattr(adev, prim)(*a)), in_axes=(0,) + (None,) * len(args)))
+        return _guard(ctx, lambda: np.asarray(f(ks, *[jnp.asarray(a, jnp.float32) for a in args])))
+
+    def bad(prim, what, info):
+        ctx.violation(f"forward|{prim}|{what}", {"primitive": prim, "n": n, **info})
+
+    def cells(prim, x, probs, args):
+        for k, q in enumerate(probs):
+            fr = float(np.mean(x == k))
+            z = (fr - q) / math.sqrt(q * (1 - q) / n)
+            ctx.count("forward_law_tests")
+            if abs(z) > Z_THRESHOLD:
+                bad(prim, "sampler-law-differs", {"args": args, "outcome": k, "frequency": fr, "reference_probability": q, "z": z})
+                return
+
+    def ks(prim, x, cdf, args):
+        xs = np.sort(np.asarray(x, np.float64))
+        F = np.array([cdf(v) for v in xs[:: max(1, n // 4000)]])
+        idx = np.arange(0, n, max(1, n // 4000))
+        d = float(np.max(np.abs(F - (idx + 0.5) / n)))
+        ctx.count("forward_law_tests")
+        if d > ks_eps + 1.0 / 4000:
+            bad(prim, "sampler-law-differs", {"args": args, "kolmogorov_distance": d, "bound": ks_eps + 1.0 / 4000})
+
+    Phi = lambda z: 0.5 * (1.0 + erf(z / sqrt(2.0)))  # noqa: E731
+    ctx.evaluation()
+    pq = round(float(rng.uniform(0.2, 0.4)), 3)
+    for prim in R.FLIP_LAW:
+        x = draws(prim, pq)
+        if hasattr(x, "brief"):
+            bad(prim, "raises", x.brief())
+            continue
+        cells(prim, np.asarray(x).astype(np.int64), [1 - pq, pq], [pq])
+    # a vector that is far from a probability vector and whose softmax is far from its normalisation
+    lg = [round(float(rng.uniform(0.1, 0.4)), 3), round(float(rng.uniform(1.2, 1.8)), 3), round(float(rng.uniform(2.5, 3.0)), 3)]
+    lg = [lg[int(i)] for i in rng.permutation(3)]
+    x = draws("categorical_enum_parallel", lg)
+    if hasattr(x, "brief"):
+        bad("categorical_enum_parallel", "raises", x.brief())
+    else:
+        w = np.exp(np.asarray(lg) - max(lg))
+        cells("categorical_enum_parallel", np.asarray(x).astype(np.int64), list(w / w.sum()), [lg])
+    mu, sg = round(float(rng.uniform(-1, 1)), 3), round(float(rng.uniform(0.5, 1.5)), 3)
+    for prim in R.NORMAL_LAW:
+        x = draws(prim, mu, sg)
+        if hasattr(x, "brief"):
+            bad(prim, "raises", x.brief())
+            continue
+        ks(prim, x, lambda v: Phi((v - mu) / sg), [mu, sg])
+    lo, hi = round(float(rng.uniform(-1, 0)), 3), round(float(rng.uniform(0.5, 2)), 3)
+    for prim in R.UNIFORM_LAW:
+        x = draws(prim, lo, hi)
+        if hasattr(x, "brief"):
+            bad(prim, "raises", x.brief())
+            continue
+        ks(prim, x, lambda v: min(1.0, max(0.0, (v - lo) / (hi - lo))), [lo, hi])
+    loc = [round(float(v), 3) for v in rng.uniform(-1, 1, 2)]
+    a, b, r = float(rng.uniform(0.6, 1.4)), float(rng.uniform(0.6, 1.4)), float(rng.uniform(0.4, 0.7))
+    cov = [[round(a * a, 4), round(r * a * b, 4)], [round(r * a * b, 4), round(b * b, 4)]]
+    L = np.linalg.cholesky(np.asarray(cov))
+    for prim in R.MVN_LAW:
+        x = draws(prim, loc, cov)
+        if hasattr(x, "brief"):
+            bad(prim, "raises", x.brief())
+            continue
+        zt = np.linalg.solve(L, (np.asarray(x, np.float64) - np.asarray(loc)).T).T  # whitened: iid N(0,1) iff law is N(loc, cov)
+        for j in range(2):
+            ks(prim, zt[:, j], Phi, [loc, cov, f"whitened coordinate {j}"])
+        rho = float(np.corrcoef(zt[:, 0], zt[:, 1])[0, 1]) * math.sqrt(n - 1)
+        ctx.count("forward_law_tests")
+        if abs(rho) > Z_THRESHOLD:
+            bad(prim, "sampler-law-differs", {"args": [loc, cov], "whitened_correlation_z": rho})
+    sd = [round(float(v), 3) for v in rng.uniform(0.5, 1.5, 2)]
+    x = draws("multivariate_normal_diag_reparam", loc, sd)
+    if hasattr(x, "brief"):
+        bad("multivariate_normal_diag_reparam", "raises", x.brief())
+    else:
+        for j in range(2):
+            ks("multivariate_normal_diag_reparam", np.asarray(x)[:, j], lambda v, j=j: Phi((v - loc[j]) / sd[j]), [loc, sd, f"coordinate {j}"])
+    ctx.sample({"kind": "forward-laws", "draws_per_primitive": n, "kolmogorov_bound": ks_eps})
+
+
 def _run_case(case, ctx):
+    if case["family"] == "forward":
+        return _run_forward_laws(case, ctx)
     spec = case["spec"]
     family = case["family"]
     rng = np.random.default_rng(list(case["vseed"]) + [5])
